@@ -8,8 +8,8 @@ RULE = (
     "family seq: operation sequences over a real event.Events / event.dispatcher target hierarchy built with type(): "
     "class creation (single and multiple inheritance, before and after registrations), instance creation, "
     "event.listen / listens_for (insert, propagate, once, named, retval-adapter), event.remove, event.contains, "
-    "dispatch on instances; exhaustive over three small alphabets (length <= 5, <= 5, <= 3 quick; <= 7, <= 6, <= 4 "
-    "thorough) in a 3-class + 2-instance context, plus seeded random sequences over up to 5 classes / 3 instances / "
+    "dispatch on instances; exhaustive over three small alphabets (quick: length <= 5, <= 4 plus every third of length 5, <= 2; "
+    "thorough: <= 7, <= 6, <= 4; sequences that leave the guarded region are sampled 1:12 beyond length 3) in a 3-class + 2-instance context, plus seeded random sequences over up to 5 classes / 3 instances / "
     "3 functions; the recorded calls and results are compared with the Coq model step by step and with the "
     "registration-log oracle. non-trivial = the sequence has a remove or a class created after a listen. "
     "family conc: 2-4 real threads calling exec_once / exec_once_unless_exception / _exec_w_sync_on_first_run on one "
@@ -201,11 +201,12 @@ ALPHA_C = [
 ]
 
 
-def _exhaustive(alpha, maxlen, kind):
+def _exhaustive(alpha, maxlen, kind, full_upto=99, stride=3):
     import itertools
 
     cases = []
     skipped = 0
+    kept = 0
     for n in range(1, maxlen + 1):
         for seq in itertools.product(range(len(alpha)), repeat=n):
             st = {"h": [], "ni": 0}
@@ -225,6 +226,10 @@ def _exhaustive(alpha, maxlen, kind):
             if n > 3 and any(_expected_seq(ops)[1]):
                 skipped += 1
                 if skipped % 12:
+                    continue
+            if n > full_upto:
+                kept += 1
+                if kept % stride:
                     continue
             cases.append({"in": [0, ops], "kind": kind})
     return cases
@@ -310,7 +315,7 @@ def gen_cases(rng, tier):
     thorough = tier == "thorough"
     cases = []
     cases += _exhaustive(ALPHA_A, 7 if thorough else 5, "seq-exh-class")
-    cases += _exhaustive(ALPHA_B, 6 if thorough else 5, "seq-exh-inst")
+    cases += _exhaustive(ALPHA_B, 6 if thorough else 5, "seq-exh-inst", full_upto=6 if thorough else 4)
     cases += _exhaustive(ALPHA_C, 4 if thorough else 2, "seq-exh-mixed")
     for _ in range(12000 if thorough else 500):
         cases.append(_random_seq(rng))
